@@ -74,6 +74,19 @@ def step (st : DState) (ts : List String) : DState × List String :=
       else []
     ({ st with rcd := r, spec := st.spec.built pkts.length },
       s!"build n={pkts.length}" :: lines ++ complaints.map (fun c => "spec-FAIL " ++ c))
+  | ["recrun", _, _, _, _, _] =>
+    -- n records: number seq+i*step (mod 2^16) at time t+i*dt
+    match (lookup fs "seq").bind (parseU · 65535), (lookup fs "t").bind parseI,
+      (lookup fs "n").bind (parseU · 40000), (lookup fs "dt").bind parseI,
+      (lookup fs "step").bind (parseU · 1000) with
+    | some seq, some t, some n, some dt, some stp =>
+      if n = 0 ∨ stp = 0 ∨ dt > 2 ^ 40 ∨ dt < -(2 ^ 40) then (st, ["bad-op"]) else
+      let st := (List.range n).foldl (fun (st : DState) i =>
+        let sq := (seq + i * stp) % 65536
+        let ti := t + (i : Int) * dt
+        { st with rcd := st.rcd.record st.media sq ti, spec := st.spec.record sq ti }) st
+      (st, [])
+    | _, _, _, _, _ => (st, ["bad-op"])
   | "rec" :: rest =>
     if rest.length ≠ 2 ∧ rest.length ≠ 3 then (st, ["bad-op"]) else
     let ssrc := if rest.length = 3 then (lookup fs "ssrc").bind (parseU · 4294967295) else some st.media
